@@ -1,10 +1,11 @@
 SPECIFICATION Spec
 INVARIANTS TypeOK OneRequestPerWeek RequestsRecorded
-PROPERTIES RequestOnlyWhenOn UploadableOnlyIf SentOnlyIf OffChangesNothing OtherBehavesLocal SetGet NoNewReadyLeftBehind
+PROPERTIES RequestOnlyWhenOn UploadableOnlyIf SentOnlyIf OffChangesNothing OtherBehavesLocal SetGet NoNewReadyLeftBehind DisabledStaysSilent NoFileBornUnderOff
 CHECK_DEADLOCK FALSE
 CONSTANTS
   W = 0
   Collectors = {"c1"}
+  LongProgs = {"lp"}
   ModeFiles <- MCModeFiles
   InitFiles <- MCInitFiles
   InitReports <- MCInitReports
@@ -20,3 +21,4 @@ CONSTANTS
   MaxEdit = 0
   MaxCollect = 1
   MaxAdv = 1
+  MaxProc = 2
